@@ -163,10 +163,20 @@ def _limit(name):
 
 
 # ----------------------------------------------------------------------------- workers
+HB_DIR = "/dev/shm"
+STUCK_CPU_S = 25.0      # CPU spent on ONE call although the in-process watchdog is 5 s: an uninterruptible loop
+STUCK_WALL_S = 600.0
+
+
+def _hb_path(run_id, pid):
+    return os.path.join(HB_DIR, f"c19hb-{run_id}-{pid}")
+
+
 def _worker(task):
-    group, seed, n = task
+    tid, run_id, group, seed, n = task
     import random
     import resource
+    C.heartbeat_open(_hb_path(run_id, os.getpid()), str(tid))
     try:
         resource.setrlimit(resource.RLIMIT_AS, (6 * 2**30, 6 * 2**30))
     except (ValueError, OSError):
@@ -186,6 +196,8 @@ def _worker(task):
         return {"error": f"{group}: {e}"}
     except C.Watchdog:
         return {"error": f"{group}: stray watchdog"}
+    finally:
+        C.heartbeat_idle()
     return {"group": group, "counts": R.counts, "digests": R.digests, "failures": R.failures, "calls": R.calls,
             "secs": time.time() - t0}
 
@@ -292,7 +304,7 @@ def run(ctx):
         if f.kind == "correspondence" and f.impl and "foreign" in f.impl:
             ctx.fail("property", f.stream, f"stream op `{f.op_line[:200]}` left the contract: {f.impl}", key=f"{f.stream}:foreign")
     # -- the exception-class oracle, in NPROC processes
-    total = ctx.n(60000, 1_000_000)
+    total = ctx.n(60000, 2_000_000)
     share = {"binary": 0.30, "binfunc": 0.13, "text": 0.18, "json": 0.10, "jsonfunc": 0.03, "pred": 0.09, "generic": 0.10,
              "textcodec": 0.01, "witness": 0.06, "deep": 0.0}
     chunk = 1500 if ctx.tier == "quick" else 12000
@@ -326,11 +338,76 @@ def run(ctx):
     t0 = time.time()
     mp = multiprocessing.get_context("fork")
     per_group_secs = {}
+    run_id = f"{os.getpid()}"
+    tick = os.sysconf("SC_CLK_TCK")
+    lost = []
     with mp.Pool(min(NPROC, os.cpu_count() or 1), maxtasksperchild=8) as pool:
-        for res in pool.imap_unordered(_worker, tasks):
-            _merge(ctx, res)
-            if "group" in res:
-                per_group_secs[res["group"].split(":")[0]] = per_group_secs.get(res["group"].split(":")[0], 0) + res["secs"]
+        pending = {tid: pool.apply_async(_worker, ((tid, run_id) + t,)) for tid, t in enumerate(tasks)}
+        while pending:
+            progressed = False
+            for tid, ar in list(pending.items()):
+                if ar.ready():
+                    res = ar.get()
+                    _merge(ctx, res)
+                    if "group" in res:
+                        g0 = res["group"].split(":")[0]
+                        per_group_secs[g0] = per_group_secs.get(g0, 0) + res["secs"]
+                    del pending[tid]
+                    progressed = True
+            if progressed:
+                continue
+            time.sleep(0.5)
+            # a worker stuck inside one call that no signal can interrupt
+            for fn in os.listdir(HB_DIR):
+                if not fn.startswith(f"c19hb-{run_id}-"):
+                    continue
+                pid = int(fn.rsplit("-", 1)[1])
+                try:
+                    with open(os.path.join(HB_DIR, fn), "rb") as fh:
+                        raw = fh.read().decode("utf8", "surrogatepass")
+                    if not raw:
+                        continue
+                    wall0, cpu0, htid, consumer, wjson = raw.split("\n", 4)
+                    with open(f"/proc/{pid}/stat") as fh:
+                        st = fh.read().rsplit(")", 1)[1].split()
+                    cpu_now = (int(st[11]) + int(st[12])) / tick
+                except (OSError, ValueError, IndexError):
+                    continue
+                if cpu_now - float(cpu0) > STUCK_CPU_S or time.time() - float(wall0) > STUCK_WALL_S:
+                    try:
+                        os.kill(pid, 9)
+                    except OSError:
+                        pass
+                    try:
+                        os.unlink(os.path.join(HB_DIR, fn))
+                    except OSError:
+                        pass
+                    try:
+                        import json as _json
+                        w = _json.loads(wjson)
+                    except ValueError:
+                        w = {"ep": "?", "args": [], "kwargs": {}, "truncated": wjson[:2000]}
+                    ep = w.get("ep", "?")
+                    key = f"{ep}->{C._generic(consumer)}:hang" if consumer else f"{ep}:hang"
+                    ctx.streams.setdefault("stuck#oracle", {"cases": 0, "failures": 0})
+                    ctx.streams["stuck#oracle"]["cases"] += 1
+                    ctx.streams["stuck#oracle"]["failures"] += 1
+                    ctx.fail("property", "stuck",
+                             f"{ep}{' then consumer ' + consumer if consumer else ''} did not return after "
+                             f"{cpu_now - float(cpu0):.0f} s of CPU and could not be interrupted (a loop inside one C call); "
+                             f"the worker was killed, on {wjson[:300]}", key=key,
+                             oracle={"oracle": "call", "witness": dict(w, consumer=consumer, uninterruptible=True)})
+                    if int(htid) in pending:
+                        del pending[int(htid)]
+                        lost.append(tasks[int(htid)][0])
+    for fn in os.listdir(HB_DIR):
+        if fn.startswith(f"c19hb-{run_id}-"):
+            try:
+                os.unlink(os.path.join(HB_DIR, fn))
+            except OSError:
+                pass
+    if lost:
+        ctx.note(f"oracle: {len(lost)} task(s) lost with a killed worker (the rest of their batch was not driven): {lost}")
     ctx.note(f"oracle: {len(tasks)} tasks in {time.time() - t0:.1f} s wall; cpu seconds per group: "
              + ", ".join(f"{g}={s:.0f}" for g, s in sorted(per_group_secs.items())))
     driven = ctx.hist.get("calls_per_entry_point", {})
